@@ -12,7 +12,7 @@ from ..core.report import norm
 from ..core.symtab import struct_items
 from ..engines import idempotent, ordereval, wire
 from ..engines.ordereval import Obj
-from . import c09
+from . import c03, c09
 
 IMG = "spsdk/sbfile/sb31/images.py"
 CMD = "spsdk/sbfile/sb31/commands.py"
@@ -445,6 +445,47 @@ def rule_padding_checks(ctx) -> None:
     ctx.chk.floor("C05.padding-check", 3)
 
 
+def rule_timestamp_agreement(ctx) -> None:
+    """C05.timestamp-agreement: the ROM derives the key-derivation key from the timestamp it reads in the container header, so the value
+    that SecureBinary31.__init__ hands to the key derivation (SecureBinary31Commands) and the value that ends in the header object are
+    the same number - for a given timestamp, for 0 and for none.  The constructor and the header's own constructor are interpreted
+    (the two "now" expressions are distinct symbolic constants)."""
+    IMG = "spsdk/sbfile/sb31/images.py"
+    sb = ctx.cls(IMG, "SecureBinary31")
+    hdr = ctx.cls(IMG, "SecureBinary31Header")
+    eh = ctx.enum_model(ctx.cls("spsdk/crypto/hash.py", "EnumHashAlgorithm"))
+    if eh is None:
+        raise AnalysisError("C05.timestamp-agreement: EnumHashAlgorithm does not fold to an enum model")
+    fn = ctx.own(IMG, "SecureBinary31", "__init__")
+    probs: List[str] = []
+    n = 0
+    for ts in (None, 0, 1, 0x27C0E97C):
+        seen: Dict[str, Any] = {}
+
+        def leaves(c: ast.Call, ev, seen=seen):
+            text = norm(c)
+            if "datetime.now()" in text and (norm(c.func) in ("int", "round") or text.endswith((".timestamp()", ".total_seconds()"))):
+                return 700000001 if "datetime(2000" in text else 1700000002
+            if norm(c.func) == "SecureBinary31Commands":
+                seen["kdf"] = {k.arg: ev.ev(k.value) for k in c.keywords if k.arg == "timestamp"}.get("timestamp", "<not passed>")
+                return ordereval.Obj(_commands=True)
+            return ordereval.NOT_MODELLED
+        me = ordereval.Obj(_cls=sb)
+        env = {"self": me, "family": "fam", "cert_block": ordereval.Obj(_cb=True), "firmware_version": 1, "signature_provider": ordereval.Obj(signature_length=64), "pck": b"P" * 32,
+               "kdk_access_rights": 0, "description": None, "is_nxp_container": False, "flags": 0, "timestamp": ts, "is_encrypted": True}
+        sym_map = {"EnumHashAlgorithm": eh}
+        try:
+            out = ordereval.Evaluator(env, ctx.fold_sym(fn, sym_map), opaque_return=False, call_value=ctx.model_calls(leaves, sym_map, classes={"SecureBinary31Header": hdr, "SecureBinary31": sb})).run(A.body_of(fn.node))
+        except ordereval.Unsupported as ex:
+            raise AnalysisError(f"C05.timestamp-agreement: {fn.qual} left the fragment: {ex}")
+        n += 1
+        h = getattr(getattr(me, "sb_header", None), "timestamp", "<no header>")
+        if out.kind == "raise" or h != seen.get("kdf") or (ts and h != ts):
+            probs.append(f"timestamp={ts!r}: header carries {h!r}, key derivation uses {seen.get('kdf')!r} ({out.kind})")
+    ctx.chk.analysed(fn.qual)
+    ctx.chk.decide(not probs, "C05.timestamp-agreement", fn.qual, f"the header's timestamp is the timestamp of the key derivation ({n} models)", "; ".join(probs)[:500], "", A.loc(IMG, fn.node))
+
+
 def run(ctx) -> None:
     ctx.chk.explain("C05: PackSym on the SB3.1 header and the command layouts; walk of the export call tree proving no accumulating state without reset (idempotent export); "
                     "shape of the hash chain (record layout, link update, processing order, container order and sequencing); length formulas evaluated for both hash sizes; "
@@ -458,7 +499,9 @@ def run(ctx) -> None:
     ctx.rule(rule_pck_probe)
     ctx.rule(rule_roundtrip)
     ctx.rule(rule_padding_checks)
+    ctx.rule(rule_timestamp_agreement)
     ctx.rule(c09.rule_kdf, "C05")
+    ctx.rule(c03.rule_key_hash, "C05")  # block 0 carries the certificate block: its root key table entries are the hashes the ROM recomputes
     ctx.chk.assumptions = ["hash/CMAC/AES values are those of the cryptography package (C09)", "not decided: signature validity, certificate block contents (C03), per-command payload semantics"]
 
 
